@@ -39,7 +39,7 @@ package ice
 //@   site call ListenUDP#1 assert explicit-port-or-no-range-uses-the-address-as-is: arg1 == lAddr && (lAddr.Port != 0 || (portMin == 0 && portMax == 0))
 //@   site call ListenUDP#2 assert every-attempt-inside-the-window: arg1.Port == portCurrent && portMin <= portCurrent && portCurrent <= portMax && arg0 == network
 //@   site call ListenUDP#2 assert effective-window: (portMin0 == 0 ==> portMin == 1024) && (portMin0 != 0 ==> portMin == portMin0) && (portMax0 == 0 ==> portMax == 65535) && (portMax0 != 0 ==> portMax == portMax0)
-//@   ensures C09 fresh-open-socket-or-none: (err == nil ==> result0 != nil && result0.gClosed == 0 && !result0.gHeld) && (err != nil ==> result0 == nil)
+//@   ensures C09 fresh-open-socket-or-none: (err == nil ==> result0 != nil && result0.payload != nil && result0.gClosed == 0 && !result0.gHeld) && (err != nil ==> result0 == nil)
 //@   ensures inverted-range-is-refused: old(lAddr.Port) == 0 && !(portMin == 0 && portMax == 0) && ite(portMin == 0, 1024, portMin) > ite(portMax == 0, 65535, portMax) ==> result0 == nil && err != nil
 
 // The gathering configuration is fixed once the agent is constructed: it is written only
